@@ -198,9 +198,21 @@ def snapshot_library_state():
                 elif callable(v) and getattr(v, "__module__", None) == m.__name__:
                     for i, dflt in enumerate(getattr(v, "__defaults__", None) or ()):
                         if isinstance(dflt, (dict, list, set)):        # mutable default argument = hidden state
-                            snap[(m.__name__, n, i)] = copy.deepcopy(dflt)
+                            _DEFAULTS.append((dflt, copy.deepcopy(dflt)))
         _LIB_SNAP[0] = snap
     return _LIB_SNAP[0]
+
+
+_DEFAULTS = []        # (the default object itself, a copy of its initial content)
+
+
+def reset_mutable_defaults():
+    """mutable default arguments of library functions (state hidden in __defaults__) back to their initial content"""
+    import copy
+    for obj, want in _DEFAULTS:
+        if obj != want:
+            obj.clear()
+            (obj.extend if isinstance(obj, list) else obj.update)(copy.deepcopy(want))
 
 
 def reset_library_state():
@@ -234,13 +246,7 @@ def reset_library_state():
                     v.cache_clear()
                 except Exception:  # noqa
                     pass
-            elif callable(v) and getattr(v, "__module__", None) == m.__name__:
-                for i, dflt in enumerate(getattr(v, "__defaults__", None) or ()):
-                    if isinstance(dflt, (dict, list, set)):
-                        want = snap.get((m.__name__, n, i))
-                        if want is not None and type(want) is type(dflt) and dflt != want:
-                            dflt.clear()
-                            (dflt.extend if isinstance(dflt, list) else dflt.update)(copy.deepcopy(want))
+    reset_mutable_defaults()
 
 
 def _run_shard(job):
